@@ -354,3 +354,105 @@ fn u12_mania_base_case() {
 fn u12_mania_protocol_limited() {
     step_protocol_limited(2, 1);
 }
+
+// ---- base case: `new` on small native mania maps -----------------------------------------------------------------------
+// Hit objects stored in the map's Vec lose their concrete discriminant for CBMC's symbolic execution, which then walks
+// rosu-map's curve code for every object. ManiaObject::new (obligations U11.mania.object.*) is therefore replaced by a
+// stub with the real function's results for circles / spinners / hold notes and a symbolic duration for sliders: what is
+// proved is the call-site contract - the constructor takes the first object's combo from its ManiaObject's times.
+static mut NEW_END: f64 = 0.0;
+/// what the real ManiaObject::new returns for circles, spinners and hold notes (U11.mania.object.*); for a slider the
+/// duration (curve length / velocity, float geometry) is the symbolic NEW_END
+fn stub_mania_object_new(h: &crate::model::hit_object::HitObject, _total_columns: f32, _params: &mut ObjectParams<'_>) -> ManiaObject {
+    use crate::model::hit_object::{HitObjectKind, HoldNote, Spinner};
+    let duration = match h.kind {
+        HitObjectKind::Circle => 0.0,
+        HitObjectKind::Slider(_) => unsafe { NEW_END },
+        HitObjectKind::Spinner(Spinner { duration }) | HitObjectKind::Hold(HoldNote { duration }) => duration,
+    };
+    ManiaObject { start_time: h.start_time, end_time: h.start_time + duration, column: 0 }
+}
+
+/// kinds are concrete per call (0 circle, 1 hold note, 2 slider)
+fn new_first_object(kind: u8, n: usize) {
+    use crate::model::hit_object::{HitObject, HitObjectKind, HoldNote, Slider};
+    use rosu_map::section::hit_objects::hit_samples::HitSoundType;
+    use rosu_map::util::Pos;
+    let mut map = Beatmap::default();
+    map.mode = GameMode::Mania;
+    map.cs = 4.0;
+    let dur: f64 = kani::any();
+    kani::assume(dur >= 0.0 && dur <= 1.0e6);
+    unsafe { NEW_END = dur };
+    let hold: f64 = kani::any();
+    kani::assume(hold >= 0.0 && hold <= 1.0e6);
+    let k = match kind {
+        0 => HitObjectKind::Circle,
+        1 => HitObjectKind::Hold(HoldNote { duration: hold }),
+        _ => HitObjectKind::Slider(Slider { expected_dist: None, repeats: 0, control_points: Vec::new().into_boxed_slice(), node_sounds: Vec::new().into_boxed_slice() }),
+    };
+    map.hit_objects.push(HitObject { pos: Pos::new(100.0, 192.0), start_time: 1000.0, kind: k });
+    map.hit_sounds.push(HitSoundType::default());
+    let mut i = 1;
+    while i < n {
+        map.hit_objects.push(HitObject { pos: Pos::new(300.0, 192.0), start_time: 1000.0 + 500.0 * i as f64, kind: HitObjectKind::Circle });
+        map.hit_sounds.push(HitSoundType::default());
+        i += 1;
+    }
+    let g = match ManiaGradualDifficulty::new(Difficulty::new(), &map) {
+        Ok(g) => g,
+        Err(_) => {
+            assert!(false, "C07 a mania map needs no conversion");
+            return;
+        }
+    };
+    assert!(g.idx == 0, "C15 a new calculator is at position 0");
+    assert!(g.objects_is_circle.len() == n, "C02 base case: one flag per hit object");
+    assert!(g.diff_objects.len() + 1 == n, "C02 base case: one difficulty object per hit object after the first");
+    assert!(g.objects_is_circle[0] == (kind == 0), "C02 base case: flag of the first object");
+    assert!(!g.is_convert, "C14 a mania map is not a convert");
+    // what increment_combo_raw makes of the first ManiaObject's times
+    let mut expect = NoteState::default();
+    let first_end = 1000.0 + match kind { 0 => 0.0, 1 => hold, _ => dur };
+    increment_combo_raw(kind == 0, 1000.0, first_end, &mut expect);
+    assert!(g.note_state.curr_combo == expect.curr_combo, "C02 base case: the first object's combo comes from its ManiaObject (start / end time)");
+    assert!(g.note_state.n_hold_notes == expect.n_hold_notes && expect.n_hold_notes == u32::from(kind != 0),
+            "C02 base case: the first object is a hold note unless it is a circle");
+    assert!(g.len() == n, "C02 the calculator announces one value per hit object");
+    std::mem::forget(g);
+    std::mem::forget(map);
+}
+
+//@ obl: id=U12.mania.new.circle2 harness=u12_mania_new_circle2 stubs=yes props=C02,C15 tier=quick kind=bounded
+//@ fns: ManiaGradualDifficulty::new, increment_combo_raw, mania DifficultyValues::create_difficulty_objects
+//@ bound: bounded: native 4K mania map of two objects: a circle followed by a circle; ManiaObject::new replaced by a stub returning what the real function returns for circles and hold notes and start + a symbolic duration in [0, 1e6] for sliders; hold duration symbolic in [0, 1e6]; default Difficulty. (One-object maps: CBMC reports deallocation failures inside std for every kind - an artifact of the symbolic-discriminant Cow / Vec drop glue; the same call runs clean under Miri - so they are not registered.)
+//@ clause: base case of the gradual invariant on the real constructor: idx == 0, one circle flag per hit object, N-1 difficulty objects, len() == N, and the combo / hold-note count of the first object are what increment_combo_raw makes of the first object's ManiaObject times - for a slider its computed duration, not the raw hit object's end time (call-site contract; ManiaObject::new itself: U11.mania.object.*)
+#[kani::proof]
+#[kani::unwind(4)]
+#[kani::stub(ManiaObject::new, stub_mania_object_new)]
+fn u12_mania_new_circle2() {
+    new_first_object(0, 2);
+}
+
+//@ obl: id=U12.mania.new.hold2 harness=u12_mania_new_hold2 stubs=yes props=C02,C15 tier=quick kind=bounded
+//@ fns: ManiaGradualDifficulty::new, increment_combo_raw, mania DifficultyValues::create_difficulty_objects
+//@ bound: bounded: native 4K mania map of two objects: a hold note followed by a circle; ManiaObject::new replaced by a stub returning what the real function returns for circles and hold notes and start + a symbolic duration in [0, 1e6] for sliders; hold duration symbolic in [0, 1e6]; default Difficulty. (One-object maps: CBMC reports deallocation failures inside std for every kind - an artifact of the symbolic-discriminant Cow / Vec drop glue; the same call runs clean under Miri - so they are not registered.)
+//@ clause: base case of the gradual invariant on the real constructor: idx == 0, one circle flag per hit object, N-1 difficulty objects, len() == N, and the combo / hold-note count of the first object are what increment_combo_raw makes of the first object's ManiaObject times - for a slider its computed duration, not the raw hit object's end time (call-site contract; ManiaObject::new itself: U11.mania.object.*)
+#[kani::proof]
+#[kani::unwind(4)]
+#[kani::stub(ManiaObject::new, stub_mania_object_new)]
+fn u12_mania_new_hold2() {
+    new_first_object(1, 2);
+}
+
+//@ obl: id=U12.mania.new.slider2 harness=u12_mania_new_slider2 stubs=yes props=C02,C15 tier=quick kind=bounded
+//@ fns: ManiaGradualDifficulty::new, increment_combo_raw, mania DifficultyValues::create_difficulty_objects
+//@ bound: bounded: native 4K mania map of two objects: a slider followed by a circle; ManiaObject::new replaced by a stub returning what the real function returns for circles and hold notes and start + a symbolic duration in [0, 1e6] for sliders; hold duration symbolic in [0, 1e6]; default Difficulty. (One-object maps: CBMC reports deallocation failures inside std for every kind - an artifact of the symbolic-discriminant Cow / Vec drop glue; the same call runs clean under Miri - so they are not registered.)
+//@ clause: base case of the gradual invariant on the real constructor: idx == 0, one circle flag per hit object, N-1 difficulty objects, len() == N, and the combo / hold-note count of the first object are what increment_combo_raw makes of the first object's ManiaObject times - for a slider its computed duration, not the raw hit object's end time (call-site contract; ManiaObject::new itself: U11.mania.object.*)
+#[kani::proof]
+#[kani::unwind(4)]
+#[kani::stub(ManiaObject::new, stub_mania_object_new)]
+fn u12_mania_new_slider2() {
+    new_first_object(2, 2);
+}
+
